@@ -7,14 +7,20 @@
    trypop  = hd := load_acq(head); hn := load_acq(hd->next);
              if hn = NULL return NULL;
              store_rel(head, hn); x := hn->data; hd->data := x; return hd
-             [harness: read hd->data] *)
+             [harness: read hd->data; hand hd back through the free stack]
+   Node recycling: every node returned by trypop is put on a free stack (plain
+   harness memory, not shared-memory traffic of the library: only one thread
+   runs at a time).  ORecyc v = the producer takes the most recently freed
+   node (one explicit scheduling point, then the decision) and pushes it with
+   data v; with an empty free stack the op is a no-op returning 0.  A recycled
+   node still has its stale next pointer. *)
 From Coq Require Import List ZArith Lia Bool Arith.
 From LF Require Import Conc.
 Import ListNotations.
 
-Inductive op := OPush (n v : nat) | OPop.
+Inductive op := OPush (n v : nat) | OPop | ORecyc (v : nat).
 
-Inductive pcT := PData | PNull | PLoadTail | PStoreTail | PLink
+Inductive pcT := PTake | PData | PNull | PLoadTail | PStoreTail | PLink
                | QHead | QNext | QSetHead | QRead | QWrite | QUse | Fin.
 
 Record tst := { pc : pcT; node : nat; arg : nat; prev : nat;
@@ -22,7 +28,7 @@ Record tst := { pc : pcT; node : nat; arg : nat; prev : nat;
                 prog : list op; opi : nat }.
 
 Record st := { head : nat; tail : nat; nxt : nat -> nat; dat : nat -> nat;
-               thr : nat -> tst; nthr : nat }.
+               freed : list nat; thr : nat -> tst; nthr : nat }.
 
 Definition with_pc (T : tst) (p : pcT) : tst :=
   {| pc := p; node := node T; arg := arg T; prev := prev T; hd := hd T; hn := hn T;
@@ -40,10 +46,13 @@ Definition next_op (T : tst) : tst :=
   | OPop :: r =>
       {| pc := QHead; node := node T; arg := arg T; prev := prev T; hd := hd T; hn := hn T;
          rdv := rdv T; prog := r; opi := S (opi T) |}
+  | ORecyc v :: r =>
+      {| pc := PTake; node := node T; arg := v; prev := prev T; hd := hd T; hn := hn T;
+         rdv := rdv T; prog := r; opi := S (opi T) |}
   end.
 
 Definition set_thr (s : st) (t : nat) (x : tst) : st :=
-  {| head := head s; tail := tail s; nxt := nxt s; dat := dat s;
+  {| head := head s; tail := tail s; nxt := nxt s; dat := dat s; freed := freed s;
      thr := upd (thr s) t x; nthr := nthr s |}.
 
 Local Open Scope Z_scope.
@@ -57,12 +66,22 @@ Definition step (s : st) (t : nat) : st * list Z :=
   let T := thr s t in
   match pc T with
   | Fin => (s, [])
+  | PTake =>
+      match freed s with
+      | [] => (set_thr s t (next_op T), ev t 0 99 0 ++ ret t T 0)
+      | n :: fr =>
+          ({| head := head s; tail := tail s; nxt := nxt s; dat := dat s; freed := fr;
+              thr := upd (thr s) t {| pc := PData; node := n; arg := arg T; prev := prev T; hd := hd T;
+                                      hn := hn T; rdv := rdv T; prog := prog T; opi := opi T |};
+              nthr := nthr s |},
+           ev t 0 99 0)
+      end
   | PData =>
-      ({| head := head s; tail := tail s; nxt := nxt s; dat := upd (dat s) (node T) (arg T);
+      ({| head := head s; tail := tail s; nxt := nxt s; dat := upd (dat s) (node T) (arg T); freed := freed s;
           thr := upd (thr s) t (with_pc T PNull); nthr := nthr s |},
        ev t (dloc (node T)) 19 (arg T))
   | PNull =>
-      ({| head := head s; tail := tail s; nxt := upd (nxt s) (node T) 0; dat := dat s;
+      ({| head := head s; tail := tail s; nxt := upd (nxt s) (node T) 0; dat := dat s; freed := freed s;
           thr := upd (thr s) t (with_pc T PLoadTail); nthr := nthr s |},
        ev t (nloc (node T)) 33 0)
   | PLoadTail =>
@@ -70,11 +89,11 @@ Definition step (s : st) (t : nat) : st * list Z :=
                       rdv := rdv T; prog := prog T; opi := opi T |},
        ev t 2 22 (tail s))
   | PStoreTail =>
-      ({| head := head s; tail := node T; nxt := nxt s; dat := dat s;
+      ({| head := head s; tail := node T; nxt := nxt s; dat := dat s; freed := freed s;
           thr := upd (thr s) t (with_pc T PLink); nthr := nthr s |},
        ev t 2 33 (node T))
   | PLink =>
-      ({| head := head s; tail := tail s; nxt := upd (nxt s) (prev T) (node T); dat := dat s;
+      ({| head := head s; tail := tail s; nxt := upd (nxt s) (prev T) (node T); dat := dat s; freed := freed s;
           thr := upd (thr s) t (next_op T); nthr := nthr s |},
        ev t (nloc (prev T)) 33 (node T) ++ ret t T (node T))
   | QHead =>
@@ -91,7 +110,7 @@ Definition step (s : st) (t : nat) : st * list Z :=
            e)
       end
   | QSetHead =>
-      ({| head := hn T; tail := tail s; nxt := nxt s; dat := dat s;
+      ({| head := hn T; tail := tail s; nxt := nxt s; dat := dat s; freed := freed s;
           thr := upd (thr s) t (with_pc T QRead); nthr := nthr s |},
        ev t 1 33 (hn T))
   | QRead =>
@@ -99,11 +118,12 @@ Definition step (s : st) (t : nat) : st * list Z :=
                       rdv := dat s (hn T); prog := prog T; opi := opi T |},
        ev t (dloc (hn T)) 9 (dat s (hn T)))
   | QWrite =>
-      ({| head := head s; tail := tail s; nxt := nxt s; dat := upd (dat s) (hd T) (rdv T);
+      ({| head := head s; tail := tail s; nxt := nxt s; dat := upd (dat s) (hd T) (rdv T); freed := freed s;
           thr := upd (thr s) t (with_pc T QUse); nthr := nthr s |},
        ev t (dloc (hd T)) 19 (rdv T))
   | QUse =>
-      (set_thr s t (next_op T),
+      ({| head := head s; tail := tail s; nxt := nxt s; dat := dat s; freed := hd T :: freed s;
+          thr := upd (thr s) t (next_op T); nthr := nthr s |},
        ev t (dloc (hd T)) 9 (dat s (hd T)) ++ ret t T (hd T))
   end.
 
@@ -116,7 +136,7 @@ Definition idle_thread (p : list op) : tst :=
 
 (* spsc_fifo_init: head = tail = zeroed stub (node 1) *)
 Definition init (progs : list (list op)) : st :=
-  {| head := 1; tail := 1; nxt := fun _ => 0; dat := fun _ => 0;
+  {| head := 1; tail := 1; nxt := fun _ => 0; dat := fun _ => 0; freed := [];
      thr := fun t => idle_thread (nth t progs []); nthr := length progs |}.
 
 Definition M : machine :=
@@ -126,6 +146,7 @@ Definition M : machine :=
 Definition dec_op (p : Z * Z) : op :=
   match fst p with
   | 1%Z => OPush (Z.to_nat (snd p / 1000)) (Z.to_nat (snd p mod 1000))
+  | 3%Z => ORecyc (Z.to_nat (snd p))
   | _ => OPop
   end.
 
